@@ -1877,7 +1877,7 @@ fn attrs_family(mut chk: Check) -> ! {
                             continue;
                         }
                         let specs: Vec<AppSpec> = styled.iter().map(|s| s.spec.clone()).collect();
-                        let o = round::run_round(&lane, &specs, &RoundOpts { want_individual: true, run_requests: true, solo: false }, &|k| script_for(&specs[k], k, false).0);
+                        let o = round::run_round(&lane, &specs, &RoundOpts { want_individual: true, run_requests: true, solo: false }, &|k| script_for(&specs[k], k, true).0);
                         out.push((ri, o));
                     }
                     out
@@ -1939,7 +1939,10 @@ fn attrs_family(mut chk: Check) -> ! {
             }
         }
         // (3) effective lifecycles and cloning policies at run time
-        evaluate_round(&mut chk, "C04", &specs, out, false);
+        evaluate_round(&mut chk, "C04", &specs, out, true);
+        // (4) what the error-handler attributes say (which input is the error, methods with a receiver,
+        // handlers attached to a constructor) reaches the compiler: failures are handled by the designated handler
+        evaluate_round(&mut chk, "C06", &specs, out, true);
     }
     // ---- route tables: method sets written in attributes
     {
